@@ -39,7 +39,17 @@ def canon(t):
         if dflt is not None:
             return ("dget", d, key, dflt)
         return ("dval", d, key)
-    return tuple(canon(x) if isinstance(x, tuple) else x for x in t)
+    out = tuple(canon(x) if isinstance(x, tuple) else x for x in t)
+    # a selection condition attached to an operand (`float(split(when(C, line))[1])`,
+    # produced when the selected item is used after the loop) is a condition on the
+    # whole value: hoist it, so that it reads like `when(C, float(split(line)[1]))`
+    if k in ("call", "split", "idx", "slice", "bin") :
+        ws = [i for i, x in enumerate(out) if isinstance(x, tuple) and x and x[0] == "when"]
+        if len(ws) == 1:
+            i = ws[0]
+            inner = out[:i] + (out[i][2],) + out[i + 1:]
+            return ("when", out[i][1], canon(inner))
+    return out
 
 
 def expand(t, limit=48):
